@@ -34,7 +34,7 @@ pub fn post(s: &Setup, r: &AllocResult<KEdge>, want: G) {
 }
 pub fn covers(s: &Setup, r: &AllocResult<KEdge>) {
     kani::cover!(s.cache.adds.get() > 0 && r.is_ok(), "non-terminal path with cache insertion");
-    kani::cover!(s.cache.hits.get() >= 3, "oracle consulted for all three cofactors");
+    kani::cover!(s.cache.hits.get() >= 2, "oracle consulted for at least two cofactors");
     kani::cover!(s.created.get() > 0, "node created");
     kani::cover!(r.is_err(), "out-of-memory path");
 }
